@@ -36,7 +36,7 @@ def check_config(cfg, w, rep):
             lf = effect_fn(w, e)
             rep.violation("a-forbidden:%s:%s" % (fn_key(lf), e.kind),
                           "`%s` uses %s (%s), which is %s" % (
-                              short(lf.path), e.term.callee.path, e.kind,
+                              short(lf.path), (e.flags.get("by_name") + " (handed over by name)") if e.flags.get("by_name") else e.term.callee.path, e.kind,
                               "not in the dependency model: treated as a mutation of unknown location" if e.kind == "Unmodelled"
                               else "a process-global or unconfined filesystem mutation"),
                           loc=e.loc(), config=cfg, rule="a-confined")
